@@ -111,24 +111,42 @@ def run(ctx: Ctx) -> None:
         ctx.ob("R6.1m", f"parser:CxxParser.parse|message `{short(st, 60)}`", ok, msg=why, node=st, mod=mod)
 
     # ---------------------------------------------------------------- R6.2
-    ctx.rule("R6.2", "every token that can reach the error handler carries a location", minimum=4)
+    ctx.rule("R6.2", "every token that can reach the error handler carries a location", minimum=3)
     stamp = [f for f in fm.linear() if f[0] == "stamp"]
     for n, v in fm.appends:
         bad = [f for f in stamp if f[1] is n.stmt]
         ctx.ob("R6.2", f"lexer:LexerTokenStream._fill_tokbuf|`{short(n.stmt)}` stamped", not bad, msg=bad[0][2] if bad else "", node=n.stmt, mod=lex)
-    err = lex.func("PlyLexer._error")
-    ecfg = CFG(err)
-    raises = [n for n in ecfg.nodes if n.kind == "stmt" and isinstance(n.stmt, ast.Raise)]
-    tokp = err.args.args[2].arg if len(err.args.args) > 2 else None
-    stamps = [n for n in ecfg.nodes if n.kind == "stmt" and isinstance(n.stmt, ast.Assign) and any(attr_chain(t) == (tokp, "location") for t in n.stmt.targets)]
-    ok = bool(raises) and bool(stamps) and all(any(ecfg.dominates(s, r) for s in stamps) for r in raises) and ecfg.exit.id not in ecfg.reachable()
-    ctx.ob("R6.2", "lexer:PlyLexer._error|stamps the token, then always raises", ok,
-           msg="_error can return, or raises LexError with a token that has no location (the handler in parse() reads tok.location)", node=err, mod=lex)
-    # every LexError / CxxParseError constructed with a token in lexer.py happens in _error
-    for qual, fn in lex.functions():
-        for c in walk_local(fn):
-            if isinstance(c, ast.Call) and isinstance(c.func, ast.Name) and c.func.id in ("LexError", "CxxParseError") and len(c.args) >= 2:
-                ctx.ob("R6.2", f"lexer:{qual}|{c.func.id}(msg, tok)", qual == "PlyLexer._error", msg=f"{qual} raises an error carrying a token outside _error (location may be missing)", node=c, mod=lex, nontrivial=False)
+    # every LexError / CxxParseError built around a token in lexer.py: the token was stamped with a location before, in
+    # the same function; the error is raised there, or returned to callers that raise it at once (an error factory)
+    factories = set()
+    built = 0
+    for qual, fn_ in lex.functions():
+        ctors = [c for c in walk_local(fn_) if isinstance(c, ast.Call) and isinstance(c.func, ast.Name) and c.func.id in ("LexError", "CxxParseError") and len(c.args) >= 2]
+        if not ctors:
+            continue
+        hcfg = CFG(fn_)
+        for c in ctors:
+            built += 1
+            tokx = c.args[1]
+            n = node_containing(hcfg, c)
+            stamps = [m for m in hcfg.nodes if m.kind == "stmt" and isinstance(m.stmt, ast.Assign) and isinstance(tokx, ast.Name) and any(attr_chain(t) == (tokx.id, "location") for t in m.stmt.targets)]
+            stamped = n is not None and any(hcfg.dominates(s_, n) and s_ is not n for s_ in stamps)
+            par = lex.parent.get(c)
+            raised = isinstance(par, ast.Raise) and par.exc is c
+            returned = isinstance(par, ast.Return)
+            if returned:
+                factories.add(fn_.name)
+            ctx.ob("R6.2", f"lexer:{qual}|{c.func.id}(msg, tok) stamped first, then raised", stamped and (raised or returned),
+                   msg=f"{qual} builds a {c.func.id} around a token " + ("that has no location yet (the handler in parse() reads tok.location)" if not stamped else "without raising it: the malformed text is accepted"), node=c, mod=lex)
+    if not built:
+        raise AnalysisError("anchor vanished: no LexError is built around a token in lexer.py")
+    for qual, fn_ in lex.functions():
+        for c in walk_local(fn_):
+            ch_ = attr_chain(c.func) if isinstance(c, ast.Call) else None
+            if ch_ and len(ch_) == 2 and ch_[0] == "self" and ch_[1] in factories:
+                par = lex.parent.get(c)
+                ctx.ob("R6.2", f"lexer:{qual}|`{short(c, 40)}` is raised", isinstance(par, ast.Raise) and par.exc is c,
+                       msg=f"the error built by {ch_[1]} is not raised where it is built: the malformed text is accepted", node=c, mod=lex, nontrivial=False)
     swap.phony_confined(ctx, "R6.2", pm)
 
     # ---------------------------------------------------------------- R6.3
@@ -143,7 +161,7 @@ def run(ctx: Ctx) -> None:
         tcfg = CFG(te)
         ok = False
         preds = [p for p, _ in tcfg.exit.pred]
-        ok = bool(preds) and all(p.kind == "stmt" and isinstance(p.stmt, ast.Expr) and isinstance(p.stmt.value, ast.Call) and attr_chain(p.stmt.value.func) == ("self", "_error") for p in preds)
+        ok = bool(preds) and all(p.kind == "stmt" and isinstance(p.stmt, ast.Expr) and isinstance(p.stmt.value, ast.Call) and (attr_chain(p.stmt.value.func) or ("", ""))[0] == "self" and (attr_chain(p.stmt.value.func) or ("", ""))[-1] in lm.noreturn_methods() for p in preds)
         ok = ok or tcfg.exit.id not in tcfg.reachable()
     ctx.ob("R6.3", "lexer:PlyLexer.t_error|always raises", ok, msg="t_error is missing or can return: an illegal character would be skipped", node=te or lm.cls, mod=lex)
     pp = lm.rule("t_PP_DIRECTIVE")
